@@ -192,6 +192,13 @@ def applyOp (udp : Bool) (limit epLimit : Nat) (sim : Sim) (f : List String) : O
     let prog := if j == 1 then compileProg udp limit epLimit ((sim.watchProg.lookup k).getD "r") else []
     some ({ sim with s := { s with inbox := s.inbox ++ [⟨9000 + 100 * k + j, .req prog⟩] }, notes := k :: sim.notes }, [])
   | ["pad", _] => some (sim, [])
+  | ["empty", i, kind] => do
+    -- an empty message that matches nothing outstanding: an ACK is discarded by the message layer (never queued), a Reset is
+    -- accepted and handed to the application's handler like any other message
+    let i ← i.toNat?
+    if udp && kind == "rst" then some ({ sim with s := { s with inbox := s.inbox ++ [⟨8000 + i, .req []⟩] } }, [])
+    else if udp then some (wire (.ack (70000 + i)), [])      -- read by the socket reader in its turn, then discarded
+    else some (sim, [])
   | ["resp", k] => do
     let k ← k.toNat?
     if sim.everSent.contains k then some (wire (.resp k), []) else some (sim, [s!"early{k}"])
@@ -210,6 +217,7 @@ def applyOp (udp : Bool) (limit epLimit : Nat) (sim : Sim) (f : List String) : O
 
 def model (line : String) : String :=
   match words line with
+  | ["disc", _] => "disc"      -- real sockets, real time: judged, not compared
   | "scn" :: tr :: q :: lim :: ep :: ops =>
     let udp := tr == "udp"
     let limit := lim.toNat?.getD 0
@@ -220,7 +228,7 @@ def model (line : String) : String :=
       let f := op.splitOn ":"
       let n0 := sim.s.log.length
       -- the harness lets one millisecond of virtual time pass before every arrival / outside call
-      let sim := if ["arrive", "call", "burst", "watch", "note"].contains (f.headD "") then sleepFor sim 1 else sim
+      let sim := if ["arrive", "call", "burst", "watch", "note"].contains (f.headD "") || (udp && f.headD "" == "empty") then sleepFor sim 1 else sim
       match applyOp udp limit epLimit sim f with
       | some (sim1, pre) =>
         let sim2 := match f with
@@ -237,6 +245,7 @@ def model (line : String) : String :=
 
 def classify (line : String) : String :=
   match words line with
+  | ["disc", _] => "racy|-"
   | "scn" :: tr :: q :: lim :: ep :: ops =>
     let udp := tr == "udp"
     let limit := lim.toNat?.getD 0
@@ -244,7 +253,7 @@ def classify (line : String) : String :=
     let sim0 : Sim := { s := init (q.toNat?.getD 0) udp [] }
     let sim := ops.foldl (fun (sim : Sim) op =>
       let f := op.splitOn ":"
-      let sim := if ["arrive", "call", "burst", "watch", "note"].contains (f.headD "") then sleepFor sim 1 else sim
+      let sim := if ["arrive", "call", "burst", "watch", "note"].contains (f.headD "") || (udp && f.headD "" == "empty") then sleepFor sim 1 else sim
       match applyOp udp limit epLimit sim f with
       | some (sim1, _) => (match f with
           | ["sleep", ms] => sleepFor sim1 (ms.toNat?.getD 0)
@@ -275,6 +284,7 @@ def history (udp : Bool) (ops : List String) (segs : List String) : Option (List
     | ["burst", ids] =>
       for m in (ids.splitOn "-").filterMap (·.toNat?) do
         hist := hist ++ [.arrive m false]
+    | ["empty", i, kind] => if udp && kind == "rst" then hist := hist ++ [.arrive (8000 + (← i.toNat?)) false]
     | ["watch", k, prog] => watchProg := (k, prog) :: watchProg
     | ["note", k] =>
       let j := (notes.filter (· == k)).length + 1
@@ -301,11 +311,38 @@ def history (udp : Bool) (ops : List String) (segs : List String) : Option (List
   | _ => none
   return (hist, pending)
 
+open CoapVerif.Spec.Dispatch in
+/-- history of a discovery run (`disc <order>`): the harness logs the responder's sends among the callback's events -/
+def discHistory (obs : String) : Option (List HEv) := do
+  let evs := ((obs.splitOn ";").headD "").splitOn ","
+  let mut hist : List HEv := []
+  for ev in evs do
+    if ev == "" then pure ()
+    else if ev.startsWith "A" then
+      let r := (ev.drop 1).toString
+      hist := hist ++ [.arrive (← (if r.endsWith "b" then (r.dropEnd 1).toString else r).toNat?) (r.endsWith "b")]
+    else if ev == "K" then hist := hist ++ [.answered 1]
+    else if ev.startsWith "s" then hist := hist ++ [.enter (← (ev.drop 1).toString.toNat?)]
+    else if ev.startsWith "e" then hist := hist ++ [.leave (← (ev.drop 1).toString.toNat?)]
+    else if ev.startsWith "n" then
+      match (ev.drop 1).toString.splitOn ":" with
+      | [k, res, _] => hist := hist ++ [.nested (← k.toNat?) (res == "ok")]
+      | _ => none
+    else none
+  return hist
+
 def judgeLine (line : String) : String :=
   match line.splitOn " | " with
   | [inp, obs] =>
     let obs := obs.trimAscii.toString
     if obs.contains "panic" then "violates no-crash" else
+    if (words inp).head? == some "disc" then
+      (if obs.startsWith "skip" then "ok" else
+       match discHistory obs with
+       | some h => (match Spec.Dispatch.judge h 0 with
+          | none => "ok"
+          | some c => s!"violates {c}")
+       | none => "violates unparsable-observation") else
     if obs == "hang" then "violates nested-stall" else      -- the harness's watchdog: the history could not be brought to an end
     match words inp with
     | "scn" :: tr :: _ :: _ :: _ :: ops =>
